@@ -39,6 +39,8 @@ def build_source(src, scratch, name='src.sgy'):
         out.update(data=data, ilines=src['il'][0] + src['il'][1] * np.arange(nI), xlines=src['xl'][0] + src['xl'][1] * np.arange(nX),
                    samples=t0 + dt / 1000.0 * np.arange(nZ), path=None, ntraces=nI * nX)
         return out
+    if geom == 'zgy':
+        return build_zgy(src, scratch, data, out)
     path = scratch.file(name)
     hr = random.Random(src['hdr']['seed'])
     if geom == '3d':
@@ -112,6 +114,88 @@ def build_source(src, scratch, name='src.sgy'):
     else:
         out['data'] = traces
     return out
+
+
+def zgy_desc(rng, shape, **kw):
+    """Descriptor of a generated ZGY source: integer annotation axes (any sign of the increments), float sample axis in ms
+    (start and increment need not be whole numbers), corner coordinates for the CDP arrays."""
+    x0, y0 = rng.choice([(0.0, 0.0), (1000.0, 2000.0), (431234.25, 6471234.5), (-500.5, 12.25)])
+    dx, dy = rng.choice([(12.5, 25.0), (25.0, 12.5), (6.25, 6.25), (100.0, 50.0)])
+    nI, nX = shape[0], shape[1]
+    d = {'geom': 'zgy', 'shape': list(shape),
+         'il': [rng.choice([1, 0, 10, -5, 1000, 2 ** 20]), rng.choice([1, 1, 2, -1, 7, -2])],
+         'xl': [rng.choice([1, 0, 100, -30, 2000]), rng.choice([1, 1, 3, -1, -7, 2])],
+         'z0': rng.choice([0.0, 0.0, 100.0, -12.0, 8.5, -100.25, 1000.0]), 'dz': rng.choice([4.0, 2.0, 1.0, 0.5, 0.25, 2.5, 3.0, 12.5, 0.125]),
+         'corners': [[x0, y0], [x0 + dx * (nI - 1), y0], [x0, y0 + dy * (nX - 1)], [x0 + dx * (nI - 1), y0 + dy * (nX - 1)]],
+         'cubeseed': rng.randrange(1 << 20), 'valkind': rng.choice(['smooth', 'smooth', 'noise', 'ramp', 'neg', 'const', 'zeros', 'tiny'])}   # openzgy's writer cannot histogram +-3e38
+    d.update(kw)
+    # pyzgy's own line accessors take a negative line *number* for an ordinal from the end, so a ZGY file with negative
+    # annotation cannot be read by number even by pyzgy: line numbers are kept >= 0 (descending axes included)
+    for ax, n in (('il', nI), ('xl', nX)):
+        lo = min(d[ax][0], d[ax][0] + d[ax][1] * (n - 1))
+        if lo < 0:
+            d[ax] = [d[ax][0] - lo, d[ax][1]]
+    return d
+
+
+def write_zgy(path, data, il, xl, z0, dz, corners=None):
+    """ZGY file (float32 samples) through pyzgy's own writer; il/xl = [start, step]."""
+    from pyzgy.write import SeismicWriter
+    with env.quiet():
+        with SeismicWriter(path, tuple(int(s) for s in data.shape), zstart=float(z0), zinc=float(dz), annotstart=(int(il[0]), int(xl[0])),
+                           annotinc=(int(il[1]), int(xl[1])), corners=[tuple(map(float, c)) for c in corners] if corners else None) as w:
+            w.write_volume(np.ascontiguousarray(data, dtype=np.float32))
+    return path
+
+
+def build_zgy(src, scratch, data, out, name='src.zgy'):
+    """O-SRC for ZGY: what pyzgy reads back from the generated file."""
+    import pyzgy
+    path = scratch.file(name)
+    write_zgy(path, data, src['il'], src['xl'], src.get('z0', 0.0), src.get('dz', 4.0), src.get('corners'))
+    with env.quiet():
+        with pyzgy.open(path) as f:
+            out.update(ilines=np.asarray(f.ilines).astype(np.int64), xlines=np.asarray(f.xlines).astype(np.int64),
+                       samples=np.asarray(f.samples, dtype=np.float64), ntraces=int(f.tracecount), corners=[tuple(c) for c in f.corners])
+        cube = np.ascontiguousarray(pyzgy.tools.cube(path), dtype=np.float32)
+    out.update(path=path, data=cube, traces=cube.reshape(-1, cube.shape[-1]), fmt=5)
+    return out
+
+
+def convert_zgy(src_path, out_path, rate=4, bs=None, cli=False):
+    if cli:
+        from click.testing import CliRunner
+        from seismic_zfp.cli import cli as cli_main
+        args = ['zgy2sgz', src_path, out_path, '--bits-per-voxel', cli_rate(rate)]
+        with env.quiet():
+            res = CliRunner().invoke(cli_main, args)
+        if res.exception is not None and not isinstance(res.exception, SystemExit):
+            raise res.exception
+        if res.exit_code != 0:
+            raise RuntimeError('cli exit %s: %s' % (res.exit_code, res.output[-300:]))
+        return out_path
+    from seismic_zfp.conversion import ZgyConverter
+    with env.quiet():
+        with ZgyConverter(src_path) as c:
+            c.run(out_path, bits_per_voxel=rate, blockshape=tuple(bs) if bs is not None else None)
+    return out_path
+
+
+def zgy_truth_arrays(src):
+    """The four header arrays a ZGY-sourced SGZ file carries (file-specification / README: CDP X/Y in centi-units by
+    bilinear placement between the corners, inline and crossline numbers), computed independently."""
+    nI, nX = len(src['ilines']), len(src['xlines'])
+    c = src['corners']
+    ii, xx = np.meshgrid(np.arange(nI, dtype=np.float64), np.arange(nX, dtype=np.float64), indexing='ij')
+    ex_i = (c[1][0] - c[0][0]) / (nI - 1)
+    ny_i = (c[1][1] - c[0][1]) / (nI - 1)
+    ex_x = (c[2][0] - c[0][0]) / (nX - 1)
+    ny_x = (c[2][1] - c[0][1]) / (nX - 1)
+    cx = np.round(100.0 * (c[0][0] + ii * ex_i + xx * ex_x)).astype(np.int64).reshape(-1)
+    cy = np.round(100.0 * (c[0][1] + ii * ny_i + xx * ny_x)).astype(np.int64).reshape(-1)
+    IL = np.repeat(np.asarray(src['ilines'], dtype=np.int64), nX)
+    XL = np.tile(np.asarray(src['xlines'], dtype=np.int64), nI)
+    return {181: cx, 185: cy, 189: IL, 193: XL}
 
 
 def convert_segy(src_path, out_path, rate=4, bs=None, reduce_iops=False, detection='heuristic', window=None, mem_limit=None):
